@@ -78,6 +78,13 @@ class Patched:
             setattr(FD, k, v)
 
 
+def release_jit():
+    """every compiled XLA:CPU kernel holds memory mappings; a long run exhausts vm.max_map_count unless they are released"""
+    import gc
+    J()["jax"].clear_caches()
+    gc.collect()
+
+
 def _logger(tag):
     def cb(t):
         LOG.append((tag, int(t)))
@@ -245,9 +252,10 @@ def build_scene(sp):
         src = fdtdx.PointDipoleSource(partial_grid_shape=(1, 1, 1), wave_character=wave, temporal_profile=prof, polarization=0)
         cons.append(src.set_grid_coordinates(axes=(0, 1, 2), sides=("-", "-", "-"), coordinates=(n[0] // 2, n[1] // 2, zs)))
     objects.append(src)
-    det = fdtdx.FieldDetector(name="det", partial_grid_shape=(2, 2, 2), dtype=jnp.float64)
+    # the detector covers the source plane and its two neighbours and records at every step (first and last included)
+    det = fdtdx.FieldDetector(name="det", partial_grid_shape=(2, 2, 3), dtype=jnp.float64)
     cons.append(det.set_grid_coordinates(axes=(0, 1, 2), sides=("-", "-", "-"),
-                                         coordinates=(n[0] // 2 - 1, n[1] // 2 - 1, min(zs + 1, n[2] - 2))))
+                                         coordinates=(n[0] // 2 - 1, n[1] // 2 - 1, zs - 1)))
     objects.append(det)
     if sp.get("lossy"):
         mat = fdtdx.Material(permittivity=2.0, electric_conductivity=sp["lossy"])
@@ -332,21 +340,22 @@ def scene_eval(sp):
             jax.effects_barrier()
             log = list(LOG)
         he, hm = np.asarray(he), np.asarray(hm)
-        de = float(np.max(np.abs(he - ge)[..., mask])) / sc_e if sc_e > 0 else float("nan")
+        # relative to the largest reference entry; absolute when the reference gradient vanishes identically
+        de = float(np.max(np.abs(he - ge)[..., mask])) / (sc_e if sc_e > 0 else 1.0)
         if mu_is_array:
-            dm = float(np.max(np.abs(hm - gm)[..., mask])) / sc_m if sc_m > 0 else float("nan")
+            dm = float(np.max(np.abs(hm - gm)[..., mask])) / (sc_m if sc_m > 0 else 1.0)
         elif has_pml:
             dm = 0.0            # a scalar permeability sums over PML cells, outside the property
         else:
-            dm = float(np.abs(hm - gm)) / sc_m if sc_m > 0 else float("nan")
+            dm = float(np.abs(hm - gm)) / (sc_m if sc_m > 0 else 1.0)
         res.append((k, de, dm, log))
     return res, (sc_e, sc_m), bool(np.all(np.isfinite(ge)))
 
 
 def scene_property_fails(sp, ev=None):
     res, (sc_e, sc_m), finite = ev or scene_eval(sp)
-    if not finite or not sc_e > 0:
-        return None if ev else f"scene is degenerate (reference gradient scale {sc_e})"
+    if not finite:
+        return None if ev else "scene is degenerate (reference gradient not finite)"
     for k, de, dm, _ in res:
         if not (de <= TOL and dm <= TOL):
             return (f"scene {sp}: reversible gradient with {k - 1} checkpoints differs from checkpointed autodiff: relative "
@@ -377,8 +386,8 @@ def thorough_scenes(seed):
 
 
 def random_scene(rng, i):
-    bounds = rng.choice(["periodic", "pml_z", "pml_z_pec_x", "pec_pmc", "pml_all", "periodic", "pml_z"])
-    source = rng.choice(["plane_gauss", "plane_custom", "dipole_gauss", "plane_gauss", "plane_cw"])
+    bounds = rng.choice(["periodic", "pml_z", "pml_z_pec_x", "pec_pmc", "pml_all", "periodic", "pml_z", "pml_z"])
+    source = rng.choice(["plane_gauss", "plane_custom", "dipole_gauss", "plane_custom", "plane_cw"])
     if bounds in ("pec_pmc", "pml_z_pec_x", "pml_all") and source.startswith("plane"):
         source = "dipole_gauss"          # a full-width plane source needs periodic transverse faces
     has_pml_z = bounds in ("pml_z", "pml_z_pec_x", "pml_all")
@@ -420,11 +429,12 @@ def run_scene(ctx, sp):
     pml = sp["bounds"].startswith("pml")
     for k, de, dm, log in res:
         ctx.case(sample={"scene": sp, "k": k, "rel_diff_eps": de, "rel_diff_mu": dm, "grad_scale": sc_e} if len(ctx.samples) < 5 else None,
-                 nontrivial=("scene", sp["bounds"], sp["source"], k > 1, bool(sp.get("lossy")), bool(sp.get("magnetic"))),
+                 nontrivial=("scene", sp["bounds"], sp["source"], k > 1, bool(sp.get("lossy")), bool(sp.get("magnetic")))
+                 if sc_e > 0 else None, zero_gradient=not sc_e > 0,
                  op="scene", bounds=sp["bounds"], source=sp["source"], slices=min(k, 4), lossy=bool(sp.get("lossy")))
         ctx.expect_equal("real-schedule", {**sp, "ks": [k]}, fmt_log(log), expected_sched(ctx, sp["T"], k))
         ctx.impl_property_evals += 1
-    if not finite or not sc_e > 0:
+    if not finite:
         ctx.mismatch("scene-degenerate", sp, {"grad_scale": sc_e, "finite": finite})
         return
     d = scene_property_fails(sp, ev)
@@ -461,6 +471,8 @@ def run(ctx):
     reps = ctx.driver.ask_many([toy_line(c) for c in cases])
     for i, (c, rep) in enumerate(zip(cases, reps)):
         T, k, dlt = c["T"], c["k"], c["dlt"]
+        if i % 10 == 9:
+            release_jit()
         res = toy_impl(c)
         g, g2, log = res
         gm, gx = h2fs(rep.split("|")[0]), h2fs(rep.split("|")[1])
@@ -475,6 +487,16 @@ def run(ctx):
             d = toy_property_fails(c, res)
             if d:
                 ctx.violation(c, d)
+    # error branch: more slices than time steps (num_checkpoints_reversible > T - 1) is rejected by both
+    bad = [toy_case(ctx.rng, 2, T, k, 0.0) for T, k in [(2, 3), (0, 2), (1, 5)]]
+    for c, rep in zip(bad, ctx.driver.ask_many([toy_line(c) for c in bad])):
+        try:
+            toy_impl(c)
+            impl = "ok"
+        except Exception as e:
+            impl = "error" if "num_checkpoints_reversible" in str(e) else "other: " + str(e)[:120]
+        ctx.case(nontrivial=("toy-error", c["T"], c["k"]), op="toy-error")
+        ctx.expect_equal("toy-error", c, impl, "error" if rep == "error" else "ok")
     ctx.exhaustive = bool(ctx.thorough)
     ctx.extra["toy_loop_cases"] = len(tk)
     tm["toy"] = time.time()
@@ -482,9 +504,11 @@ def run(ctx):
     # (c) the property on the real solver
     scenes = quick_scenes(ctx.rng.randint(0, 10 ** 6))
     if ctx.thorough:
-        scenes += thorough_scenes(7) + [random_scene(ctx.rng, i) for i in range(16)]
+        scenes += thorough_scenes(7) + [random_scene(ctx.rng, i) for i in range(18)]
     for i, sp in enumerate(scenes):
         run_scene(ctx, sp)
+        if i % 4 == 3:
+            release_jit()
         tm[f"scene{i}"] = time.time()
     # report a violation on the real solver in preference to one on the real loop with the toy step
     ctx.violations.sort(key=lambda v: 0 if isinstance(v["input"], dict) and v["input"].get("kind") == "scene" else 1)
@@ -516,6 +540,7 @@ def search(ctx, hints):
     cands += quick_scenes(11) + [random_scene(r, i) for i in range(ctx.scale(12, 60))]
     for sp in cands:
         ctx.impl_property_evals += 1
+        release_jit()
         d = scene_property_fails(sp)
         if d and "degenerate" not in d:
             ctx.violation(sp, d)
